@@ -230,7 +230,9 @@ CLAIMED = {
         "for ANY plan (C03Ignore.lean): a successful run has called the renamer for every file whose generated path differs "
         "(done_calls_all, any renamer), and each such file was renamed as planned or its destination was taken - an initial "
         "entry or the destination of a reported rename - or its source had been renamed away (unrenamed_had_conflict); hence a "
-        "file whose destination is free is renamed (free_destination_is_renamed). The remaining plan-level claims (path/directory mode, override keeps the source's content in whole "
+        "file whose destination is free is renamed (free_destination_is_renamed); ignore_run_paths (C03IgnorePaths.lean): the report "
+        "of a successful ignore run has no override and is a sub-list of the planned moves up to order, so the final tree has the "
+        "closed form of C05Closed - unrenamed files are where they were, nothing was replaced. The remaining plan-level claims (path/directory mode, override keeps the source's content in whole "
         "runs) are evaluated on instrumented real runs with all strategies and scripted answers, compared with the model.",
         "Trusted: Lean kernel; extraction by harness/extract.py; ASCII lower-casing; hand-written pipeline model tied by "
         "sampled correspondence; the plan-level semantics of stop/ignore outside free name-mode plans are decided by the oracle.",
